@@ -98,12 +98,14 @@ func (g *gen) leaf(k kind) ex {
 	return atom("0")
 }
 
+// isPlainInt: decimal integer literal (digits and separators): a following '.' would be
+// taken as its decimal point.
 func isPlainInt(s string) bool {
-	if s == "" {
+	if s == "" || !isDigit(s[0]) {
 		return false
 	}
 	for i := 0; i < len(s); i++ {
-		if !isDigit(s[i]) {
+		if !isDigit(s[i]) && s[i] != '_' {
 			return false
 		}
 	}
@@ -135,7 +137,7 @@ func (g *gen) args(n, d int) string {
 	var parts []string
 	for i := 0; i < n; i++ {
 		if g.level >= 2015 && g.r.Chance(1, 14) {
-			parts = append(parts, "..."+g.w(g.expr(kArr, d-1), pAssign))
+			parts = append(parts, "..."+g.w(g.expr(kArr, d-1), pCond)) // V8 mis-parses f(a>>=0,...[b]=c)
 			continue
 		}
 		parts = append(parts, g.w(g.expr(kAny, d-1), pAssign))
@@ -169,6 +171,9 @@ func (g *gen) member(obj ex, prop string, optional bool) ex {
 		}
 	}
 	e := ex{p: pCall, opt: obj.opt || optional, call: obj.call}
+	if obj.numlit && !obj.num && !g.known && strings.HasPrefix(os, "(") {
+		os = obj.s // N07: (1.0).a / (1n).a are printed as 1.a / 1n..a
+	}
 	isIdent := prop != "" && isIdentStart(prop[0]) && !strings.ContainsAny(prop, "-. ")
 	if optional {
 		if isIdent && r.Chance(3, 4) {
@@ -608,10 +613,16 @@ func (g *gen) strExpr(d int) ex {
 		return ex{s: "h5" + g.args(r.Intn(2), d), p: pCall, call: true}
 	case 15:
 		n := g.expr(kNum, d-1)
+		ns := g.w(n, pCall)
 		if n.num {
-			n = ex{s: "(" + n.s + ")", p: pPrimary}
+			ns = "(" + n.s + ")"
+		} else if n.numlit && !g.known {
+			ns = n.s
+			if strings.HasSuffix(ns, ".") {
+				ns += " "
+			}
 		}
-		return ex{s: g.w(n, pCall) + r.Pick(".toFixed(1)", ".toString()", ".toString(2)", ".toString(16)", ".toPrecision(3)", ".toExponential(1)"), p: pCall, call: true}
+		return ex{s: ns + r.Pick(".toFixed(1)", ".toString()", ".toString(2)", ".toString(16)", ".toPrecision(3)", ".toExponential(1)"), p: pCall, call: true}
 	case 16:
 		// numeric literal followed by a member access
 		lit := g.numLit()
@@ -634,7 +645,12 @@ func (g *gen) strExpr(d int) ex {
 		}
 	case 20:
 		if g.level >= 2020 {
-			return ex{s: g.w(g.expr(kBig, d-1), pCall) + ".toString()", p: pCall, call: true}
+			b := g.expr(kBig, d-1)
+			bs := g.w(b, pCall)
+			if b.p == pPrimary && !g.known {
+				bs = b.s
+			}
+			return ex{s: bs + ".toString()", p: pCall, call: true}
 		}
 	}
 	return g.leaf(kStr)
@@ -764,7 +780,7 @@ func (g *gen) dataProp0() string { return dataProps[g.r.Intn(len(dataProps))] }
 
 func (g *gen) isEmptyStr(e ex) bool {
 	s := strings.Trim(e.s, "() \n\t")
-	return s == `""` || s == `''`
+	return len(s) >= 2 && (s[0] == '"' || s[0] == '\'') && emptyStringValue(s)
 }
 
 // logicalOf builds a || / && / ?? combination over kind k.
@@ -979,8 +995,8 @@ func (g *gen) assignExpr(k kind, d int) (ex, bool) {
 			return ex{}, false
 		}
 		rhs := g.expr(k, d-1)
-		if g.level >= 2021 && r.Chance(1, 6) {
-			// logical assignment; the right-hand side stays primary (K11)
+		if g.level >= 2021 && g.known && r.Chance(1, 6) {
+			// logical assignment in arbitrary positions (K11)
 			op := r.Pick("&&=", "||=", "??=")
 			var rs string
 			if g.known {
@@ -1096,7 +1112,7 @@ func (g *gen) objLit(d int) string {
 			parts = append(parts, name+":"+val())
 		case 7:
 			if g.level >= 2015 {
-				parts = append(parts, "["+g.expr(kStr, d-1).s+"]:"+val())
+				parts = append(parts, "["+g.w(g.expr(kStr, d-1), pAssign)+"]:"+val())
 				continue
 			}
 			parts = append(parts, name+":"+val())
